@@ -193,6 +193,18 @@ func propC11(c *Ctx) {
 	c.Check(nErrCalls >= 20, u10, "send-path/error-producing-calls-examined", "protocol/transport/udp", "the scan saw the send path's error-producing calls", "fewer error-producing calls than reviewed: the scan went blind")
 
 	u5 := c.Rule("U5", "K1/K2/K5", "Write: one datagram, exact payload, after resolution", 6)
+	if fn := c.Fn(u5, "(*udp.endpoint).prepareForWrite"); fn != nil {
+		bl := "(*udp.endpoint).bindLocked($0, zero, nil)"
+		c.CheckSites(u5, fn, []SiteSpec{
+			{Kind: "return", Args: []string{"false", "nil"}, Guards: []string{"!($0.state == 0)", "($0.state == 2)"}, Exact: true, N: 1, Why: "connected: write may proceed"},
+			{Kind: "return", Args: []string{"false", "tcpip.ErrInvalidEndpointState"}, Guards: []string{"!($0.state == 0)", "!($0.state == 1)", "!($0.state == 2)"}, Exact: true, N: 1, Why: "closed (or any other state): the write fails"},
+			{Kind: "return", Args: []string{"false", "tcpip.ErrDestinationRequired"}, Guards: []string{"!($0.state == 0)", "!($0.state == 2)", "($0.state == 1)", "($1 == nil)"}, Exact: true, N: 1, Why: "bound but not connected and no destination given: the write fails"},
+			{Kind: "return", Args: []string{"false", "nil"}, Guards: []string{"!($0.state == 0)", "!($0.state == 2)", "!($1 == nil)", "($0.state == 1)"}, Exact: true, N: 1, Why: "bound with a destination: write may proceed"},
+			{Kind: "call", Target: "(*udp.endpoint).bindLocked", Args: []string{"$0", "zero", "nil"}, Guards: []string{"($0.state == 0)"}, Exact: true, N: 1, Why: "an unbound endpoint binds itself (any address, ephemeral port) before its first write"},
+			{Kind: "return", Args: []string{"false", bl}, Guards: []string{"!(" + bl + " == nil)", "($0.state == 0)"}, Exact: true, N: 1, Why: "a failed implicit bind fails the write with that error"},
+			{Kind: "return", Args: []string{"true", "nil"}, N: 2, Why: "state changed or just bound: the caller re-evaluates"},
+		})
+	}
 	if fn := c.Fn(u5, "(*stack.Route).WritePacket"); fn != nil {
 		wp := "iface:stack.NetworkEndpoint.WritePacket($0.ref.ep, $0, $1, $2, $3, $4)"
 		c.CheckSites(u5, fn, []SiteSpec{
@@ -266,6 +278,9 @@ func propC11(c *Ctx) {
 			c.Check(InstrDominates(pre[0].(ssa.Instruction), ul[0].(ssa.Instruction)), u5, FuncName(fn)+"/length-after-prepend", c.pos(ul[0]), "UDP length counts the 8 header bytes (UsedLength after Prepend)", "UDP length computed before the header was prepended")
 		}
 	}
+	u11 := c.Rule("U11", "K7 site tables (closed)", "the receive queue is a correct doubly-linked list: PushBack, Remove, Front, links", 15)
+	c.ListImpl(u11, "udp", "udpPacketList", "udpPacketEntry", "udpPacketElementMapper", "PushBack", "Remove")
+
 	u9 := c.Rule("U9", "typestate", "a queued datagram's list links are not read after its removal unless Remove preserves them", 2)
 	c.LinkTypestate(u9, "udp.udpPacketList", "udp.udpPacketEntry")
 
